@@ -361,6 +361,32 @@ def _scn_fix(T, case):
     scn_fix(T, case)
 
 
+# ------------------------------------------------------------------------------------ the configured mask is a boolean array
+def cases_mask_canonical(tier):
+    yield "mask-converter", {}
+
+
+def scn_mask_canonical(T, case):
+    """Everything above indexes with `mask` as a BOOLEAN mask (variables[..., mask], _get_mask's `&`).  That is the canonical form
+    established when the configuration is validated (C18): whatever array-like of 0/1 or booleans the user gives - including an
+    integer ndarray - is stored as a read-only bool array of the same truth values."""
+    from contracts import C18
+
+    MU = "ropt.config.utils"
+    if T.symbolic:
+        sh = T.shadow([MU])
+        get = lambda q: T.under_contract(sh, MU, q)  # noqa: E731
+    else:
+        get = lambda q: T.func(MU, q)  # noqa: E731
+    C18.check_converters(T, get, "C09.mask", only=("_convert_1d_array_bool",))
+    # ... and the field of the real VariablesConfig is declared with that converter
+    from ropt.config.enopt import VariablesConfig
+
+    for given in ([1, 0, 1], np.array([1, 0, 1]), np.array([True, False, True]), (True, False, True)):
+        cfg = VariablesConfig.model_validate({"initial_values": [0.0, 1.0, 2.0], "mask": given})
+        T.prove("C09.mask.validated_mask_is_a_boolean_array_of_the_given_truth_values", cfg.mask.dtype == np.bool_ and cfg.mask.tolist() == [True, False, True], repr(given))
+
+
 SCENARIOS = [
     Scenario("magnitudes_of_fixed_variables_are_finite", _scn_fix, cases_fix_fixed, {"quick": 5, "thorough": 30}),
     Scenario("get_mask_init_samplers", scn_get_mask, cases_get_mask, {"quick": 1, "thorough": 1}),
@@ -369,6 +395,7 @@ SCENARIOS = [
     Scenario("gradients", scn_gradients, cases_gradients, {"quick": 5, "thorough": 50}),
     Scenario("evaluator_requests", scn_requests, cases_requests, {"quick": 5, "thorough": 40}),
     Scenario("scipy_arguments", scn_scipy, cases_scipy, {"quick": 3, "thorough": 20}),
+    Scenario("mask_is_canonical", scn_mask_canonical, cases_mask_canonical, {"quick": 1, "thorough": 1}),
 ]
 
 MANIFEST = {
